@@ -795,6 +795,16 @@ def build_items(rng, tier):
 
 # ---------------------------------------------------------------- judging
 
+def any_dec_out_of_range(v):
+    if v[0] == "dec":
+        return dec_to_float(v) is None
+    if v[0] == "arr":
+        return any(any_dec_out_of_range(x) for x in v[1])
+    if v[0] == "obj":
+        return any(any_dec_out_of_range(x) for _, x in v[1])
+    return False
+
+
 def has_nonbmp(v):
     if v[0] == "str":
         return any(c >= 0x10000 for c in v[1])
@@ -838,6 +848,9 @@ def classify_parse(c, mres, b, stats):
     if expect is not None and expect != mv:
         return ("disagreement", "generator-vs-model", "python expected %r, model parsed %r" % (expect, mv))
     stats["valid"] += 1
+    if any_dec_out_of_range(mv):
+        stats["float_out_of_range"] += 1      # no finite double: what the library should do is not fixed by the statement
+        return None
     if impl_vals is None or impl_vals == []:
         how = ("raises " + show_term(b["E"])) if impl_vals is None else "fails"
         surr = any(text[i:i + 2] == "\\u" and text[i + 2:i + 4].lower() in ("d8", "d9", "da", "db") for i in range(len(text)))
